@@ -419,12 +419,18 @@ def _branch_kind_conflicts(fn):
             pairs += 1
             (ka, ca), (kb, cb) = sides[0][slot], sides[1][slot]
             if ka != kb and {ka, kb} != {"list", "tuple"}:
-                out.append((i, slot[0], slot[1], ka, kb, ca))
+                # only a contradiction when both sides build the value from the same element expression (one joins it,
+                # the other does not); a callee that accepts both a name and a list of names is not one
+                va = next((kw.value for kw in ca.keywords if kw.arg == slot[1]), None) if isinstance(slot[1], str) else (ca.args[slot[1]] if slot[1] < len(ca.args) else None)
+                vb = next((kw.value for kw in cb.keywords if kw.arg == slot[1]), None) if isinstance(slot[1], str) else (cb.args[slot[1]] if slot[1] < len(cb.args) else None)
+                elts = lambda v: {norm(c.elt) for c in ast.walk(v) if isinstance(c, (ast.ListComp, ast.GeneratorExp, ast.SetComp))} if v is not None else set()  # noqa: E731
+                if elts(va) & elts(vb):
+                    out.append((i, slot[0], slot[1], ka, kb, ca))
     return out, pairs
 
 
 def r03_7(chk):
-    chk.rule("R03.7", "the two branches of an option give the same callee the same kind of value: where both branches of one `if` call the same function with the same argument slot and the kinds are syntactically evident (string vs list vs dict ...), they agree (contradiction rule: one branch's belief about what the callee accepts is wrong, and the untested branch always raises)")
+    chk.rule("R03.7", "the two branches of an option give the same callee the same kind of value: where both branches of one `if` call the same function with the same argument slot, build the argument from the same element expression, and the kinds are syntactically evident (one joins the elements into a string, the other passes the list), they agree (contradiction rule: one branch's belief about what the callee accepts is wrong, and the untested branch always raises)")
     total = 0
     for rel, classes in ((ALN, ("_SequenceCollectionBase", "SequenceCollection", "AlignmentI", "ArrayAlignment", "Alignment", "Aligned")), ("core/new_alignment.py", ("SequenceCollection", "Alignment", "Aligned"))):
         m = chk.repo.module(rel)
